@@ -10,6 +10,8 @@ import (
 
 	"hop.computer/hop/authgrants"
 	"hop.computer/hop/pkg/thunks"
+	"hop.computer/hop/config"
+	"hop.computer/hop/transport"
 	"hop.computer/hop/tubes"
 )
 
@@ -216,4 +218,32 @@ func VH_C07_exec_for_grant_session_is_gated_by_checkcmd() {
 		verifCover("refused")
 		verifAssert(c07d.failures == 1, "C07: a refused request is answered with exactly one failure")
 	}
+}
+
+// Grants the server issues itself carry the principal id NoSession. No user
+// session may ever be numbered NoSession, or a process started under a
+// one-command grant could ask for further grants through someone else's
+// session.
+
+func c07TubesServer(c transport.MsgConn, cfg *tubes.Config) *tubes.Muxer { return &tubes.Muxer{} }
+func c07SessStart(sess *hopSession)                                    {}
+
+//verif:prop C07
+//verif:replay none
+//verif:stub hop.computer/hop/tubes.Server = c07TubesServer
+//verif:stub (*hop.computer/hop/hopserver.hopSession).start = c07SessStart
+//verif:bounds two consecutive sessions accepted by a server whose session counter holds any value below 2^32-2 (in particular 0: the first session after start)
+//verif:cover numbered
+func VH_C07_no_user_session_is_numbered_like_the_servers_own_grants() {
+	s := &HopServer{sessions: map[sessID]*hopSession{}, config: &config.ServerConfig{}}
+	start := verifU32("sessions-accepted-so-far")
+	verifAssume(start < 1<<32-2)
+	s.nextSessionID.Store(start)
+	for i := 0; i < 2; i++ {
+		s.newSession(nil)
+	}
+	verifAssert(len(s.sessions) == 2, "C07: every accepted session is registered under its own number")
+	_, clash := s.sessions[NoSession]
+	verifAssert(!clash, "C07: no user session is ever registered under NoSession, the principal id of grants issued by the server itself")
+	verifCover("numbered")
 }
